@@ -38,6 +38,7 @@ FLOORS = {'schedules': 200, 'evaluate_outcomes': 2000, 'snapshots': 50,
           'evaluations_after_reassignment': 500, 'long_chain_outcomes': 48,
           'failing_evaluations_before_reassignment': 30,
           'numeric_state_outcomes': 100,
+          'constant_consumption_outcomes': 100,
           'models_with_equal_constants_of_different_type': 20}
 ANCHOR_FUNCS = {
     'xlcalculator/evaluator.py': ['Evaluator.evaluate',
@@ -487,6 +488,61 @@ def run(ctx):
                           'observations': [str(o) for o in obs]},
                          monitor='schedule-independence',
                          group='numeric-state:' + a)
+
+    # ---- constants are never consumed: a sum over hundreds of cells whose
+    # first cell holds a library Number object, texts that begin with an
+    # apostrophe - every cell gives the same outcome however often and in
+    # whatever order it is asked, and the constants stay what they were -------
+    if ctx.shard in (4, 5, 6, 7) or thorough:
+        from xlcalculator.xlfunctions import func_xltypes as T_
+        S = 'Sheet1'
+        for variant in ('big-sum', 'apostrophes'):
+            if variant == 'big-sum':
+                n_ = rng.choice([256, 300, 400])
+                cells_ = {f'A{i}': i for i in range(1, n_ + 1)}
+                cells_.update({'B1': f'=SUM(A1:A{n_})',
+                               'B2': f'=A1/SUM(A1:A{n_})',
+                               'B3': f'=SUM(A1:A{n_})-SUM(A2:A{n_})',
+                               'B4': '=A1+0'})
+                probes_ = ['B1', 'B2', 'B3', 'B4', 'A1']
+            else:
+                cells_ = {'A1': "'007", 'A2': "''quoted''", 'A3': "'",
+                          'A4': "O'Brien", 'B1': '=A1&A2&A3', 'B2': '=A2&"!"',
+                          'B3': '=LEN(A1)+LEN(A2)+LEN(A3)', 'B4': '=A4&A1'}
+                probes_ = ['B1', 'B2', 'B3', 'B4', 'A1', 'A2', 'A3']
+            model_ = subject.compile_dict(cells_)
+            ev_ = Evaluator(model_)
+            if variant == 'big-sum':
+                ev_.set_cell_value(f'{S}!A1', T_.Number(1))
+            before_ = snapshot(model_)
+            seen_ = {}
+            for round_ in range(4):
+                order = list(probes_)
+                rng.shuffle(order)
+                for a in order:
+                    got = subject.outcome_of(lambda: ev_.evaluate(f'{S}!{a}'))
+                    ctx.event('evaluate_outcomes')
+                    ctx.event('constant_consumption_outcomes')
+                    first = seen_.setdefault(a, got)
+                    if got != first:
+                        ctx.fail(f'{a} ({cells_.get(a)!r}, {variant}) '
+                                 f'evaluated to {got} in round {round_} '
+                                 f'(order {order}), before it was {first}',
+                                 {'variant': variant, 'cell': a,
+                                  'formula': cells_.get(a), 'observed': got,
+                                  'first': first},
+                                 monitor='schedule-independence',
+                                 group='constants-consumed:' + variant)
+            ctx.event('snapshots')
+            after_ = snapshot(model_)
+            if after_ != before_:
+                diff = [a for a in set(before_[0]) | set(after_[0])
+                        if before_[0].get(a) != after_[0].get(a)]
+                ctx.fail(f'evaluation changed constants of the model '
+                         f'({variant}): {[(a, before_[0].get(a), after_[0].get(a)) for a in diff[:4]]}',
+                         {'variant': variant, 'changed': diff[:10]},
+                         monitor='model-unchanged',
+                         group='constants-consumed-snapshot:' + variant)
 
     # ---- long chains: the outcome of a cell (its value, or the failure once the
     # interpreter's stack is exhausted) is the same whatever was evaluated
